@@ -11,6 +11,8 @@ all integral (LAPACK output) is written with ``exact: false`` and no data.
 import numpy as np
 
 LIMIT = 2**30
+ARRAY_LIMIT = None  # arrays with more stored elements in total are logged without data
+DATA_LIMIT = None   # blocks with more elements than this are logged without data (structure + checksum only)
 
 
 class OutOfRange(Exception):
@@ -88,9 +90,22 @@ def ser_data(a):
     return True, [[int(x), int(y)] for x, y in zip(rre, rim)]
 
 
+def _crc(a):
+    import zlib
+
+    try:
+        return zlib.crc32(np.ascontiguousarray(a).tobytes()) & 0x3FFFFFFF
+    except Exception:  # noqa
+        return 0
+
+
 def ser_block(sector, a):
-    exact, data = ser_data(a)
+    if DATA_LIMIT is not None and np.size(a) > DATA_LIMIT:
+        exact, data = False, []
+    else:
+        exact, data = ser_data(a)
     return {
+        "h": _crc(a),
         "s": [ser_charge(c) for c in sector],
         "shape": [int(d) for d in np.shape(a)],
         "data": data,
@@ -106,6 +121,17 @@ def ser_label(lbl):
 
 
 def ser_array(x):
+    global DATA_LIMIT
+    if ARRAY_LIMIT is not None and sum(int(np.size(b)) for b in x.blocks.values()) > ARRAY_LIMIT:
+        saved, DATA_LIMIT = DATA_LIMIT, -1
+        try:
+            return _ser_array(x)
+        finally:
+            DATA_LIMIT = saved
+    return _ser_array(x)
+
+
+def _ser_array(x):
     import symmray as sr
 
     fermi = isinstance(x, sr.FermionicArray)
